@@ -493,6 +493,10 @@ func (a c11Attr) transform(g *Gen, ttype uint8, id uint16) *message.Transform {
 func propC11(c *Ctx) {
 	g := NewGen(c.seed)
 	if c.replay != nil {
+		if strings.HasPrefix(c.replay.Input, "c11-first-use") {
+			c.c11FirstUse()
+			return
+		}
 		c.c11Replay(g)
 		return
 	}
@@ -503,6 +507,7 @@ func propC11(c *Ctx) {
 	c.c11Sound(g, &corr)
 	t2 := time.Now()
 	c.c11SA(g, &corr)
+	c.c11FirstUse()
 	c.note("wall: advertised %.1fs, soundness %.1fs, sa %.1fs", t1.Sub(t0).Seconds(), t2.Sub(t1).Seconds(), time.Since(t2).Seconds())
 	sc := c.suite("registry-model-vs-impl", "correspondence",
 		"dectr: every (kind, transform) with a registered identifier or a key-length-like attribute from the soundness sweep plus hand-built structs with stale fields (attribute not present / TLV format but type 14 and a value set); totr: every advertised algorithm; selike/selchild: the single-choice proposals of the SA suite (supported and one-unsupported); toprop: all 54+54 supported combinations; non-trivial = the Go outcome is not none/err")
